@@ -20,6 +20,7 @@ mod c13;
 mod c14;
 mod c17;
 mod c19;
+mod c20;
 mod tracked;
 mod lin;
 
